@@ -44,6 +44,9 @@ pub struct ReplayFile {
     pub seed: u64,
     pub tier: String,
     pub minimised: bool,
+    /// build profile the violation was observed under
+    #[serde(default)]
+    pub profile: String,
     pub scenario: Scenario,
 }
 
@@ -212,7 +215,18 @@ pub fn cmd_exec(a: &[String]) -> i32 {
 }
 
 /// Execute a scenario in a child process; a hang or crash becomes a violation record.
-pub fn exec_in_child(sc: &Scenario) -> Result<RunReport, String> {
+pub fn exe_for(profile: &str) -> Result<std::path::PathBuf, String> {
+    if profile == "release" {
+        let p = std::path::PathBuf::from(format!("{}/sim/target/release/vpsim", verif_root()));
+        if p.exists() {
+            return Ok(p);
+        }
+        return Err(format!("release binary missing: {}", p.display()));
+    }
+    std::env::current_exe().map_err(|e| e.to_string())
+}
+
+pub fn exec_in_child(sc: &Scenario, profile: &str) -> Result<RunReport, String> {
     let dir = std::env::temp_dir();
     let path = dir.join(format!(
         "vpsim-exec-{}-{}.json",
@@ -220,7 +234,7 @@ pub fn exec_in_child(sc: &Scenario) -> Result<RunReport, String> {
         ctl::HEARTBEAT.fetch_add(1, Ordering::Relaxed)
     ));
     std::fs::write(&path, serde_json::to_string(sc).unwrap()).map_err(|e| e.to_string())?;
-    let exe = std::env::current_exe().map_err(|e| e.to_string())?;
+    let exe = exe_for(profile)?;
     let out = Command::new(exe)
         .arg("exec")
         .arg(&path)
@@ -287,7 +301,7 @@ pub fn cmd_replay(a: &[String]) -> i32 {
         "replaying property={} class={} site={} (seed {} tier {})",
         rf.property, rf.class, rf.site, rf.seed, rf.tier
     );
-    match exec_in_child(&rf.scenario) {
+    match exec_in_child(&rf.scenario, &rf.profile) {
         Ok(rep) => {
             let mut same = false;
             for v in &rep.violations {
@@ -331,6 +345,7 @@ pub fn cmd_shrink(a: &[String]) -> i32 {
         site: rf.site.clone(),
         detail: rf.detail.clone(),
         scenario: rf.scenario.clone(),
+        profile: rf.profile.clone(),
     };
     let (m, tried) = shrink::minimise(&v, 400, Duration::from_secs(60));
     eprintln!("shrink: {tried} candidates");
@@ -387,7 +402,7 @@ pub struct Agg {
 }
 
 struct Shared {
-    queue: VecDeque<(u64, u64)>,
+    queue: VecDeque<(u64, u64, &'static str)>,
     agg: Agg,
 }
 
@@ -397,9 +412,10 @@ fn run_chunk(
     seed: u64,
     start: u64,
     count: u64,
+    profile: &'static str,
     shared: &Arc<Mutex<Shared>>,
 ) -> Result<(), String> {
-    let exe = std::env::current_exe().map_err(|e| e.to_string())?;
+    let exe = exe_for(profile)?;
     let mut child = Command::new(exe)
         .args([
             "worker",
@@ -447,11 +463,13 @@ fn run_chunk(
                             a.samples.push(s);
                         }
                     }
-                    for v in rep.violations {
+                    for mut v in rep.violations {
                         if a.violations.len() < 200 {
+                            v.profile = profile.to_string();
                             a.violations.push(v);
                         }
                     }
+                    *a.probes.entry(format!("runs_profile_{profile}")).or_insert(0) += 1;
                     begun = None;
                 }
                 Err(e) => return Err(format!("malformed worker report: {e}")),
@@ -487,12 +505,16 @@ fn run_chunk(
     };
     let scen = sub.unwrap_or(base);
     // confirm in isolation before reporting
-    let confirmed = match exec_in_child(&scen) {
+    let confirmed = match exec_in_child(&scen, profile) {
         Ok(rep) => rep
             .violations
             .iter()
             .find(|v| v.class == class)
-            .cloned(),
+            .cloned()
+            .map(|mut v| {
+                v.profile = profile.to_string();
+                v
+            }),
         Err(_) => None,
     };
     {
@@ -511,7 +533,7 @@ fn run_chunk(
         // remainder of the slice
         let next = idx + 1;
         if next < start + count {
-            g.queue.push_front((next, start + count - next));
+            g.queue.push_front((next, start + count - next, profile));
         }
     }
     Ok(())
@@ -557,12 +579,16 @@ pub fn cmd_check(a: &[String]) -> i32 {
 
     let chunk = ((runs / (workers as u64 * 6)).max(1)).min(5_000);
     let mut queue = VecDeque::new();
+    let profiles = props::profiles(&prop);
     let mut s = 0;
     while s < runs {
         let c = chunk.min(runs - s);
-        queue.push_back((s, c));
+        for pr in profiles {
+            queue.push_back((s, c, *pr));
+        }
         s += c;
     }
+    let runs = runs * profiles.len() as u64;
     let shared = Arc::new(Mutex::new(Shared {
         queue,
         agg: Agg::default(),
@@ -576,11 +602,11 @@ pub fn cmd_check(a: &[String]) -> i32 {
         let herr = harness_err.clone();
         handles.push(std::thread::spawn(move || loop {
             let job = { shared.lock().unwrap().queue.pop_front() };
-            let Some((st, ct)) = job else { break };
+            let Some((st, ct, pr)) = job else { break };
             if herr.lock().unwrap().is_some() {
                 break;
             }
-            if let Err(e) = run_chunk(&prop, &tier, seed, st, ct, &shared) {
+            if let Err(e) = run_chunk(&prop, &tier, seed, st, ct, pr, &shared) {
                 *herr.lock().unwrap() = Some(e);
                 break;
             }
@@ -602,7 +628,11 @@ pub fn cmd_check(a: &[String]) -> i32 {
     let known = load_known();
     let mut by_key: BTreeMap<String, Violation> = BTreeMap::new();
     for v in &agg.violations {
-        by_key.entry(v.key()).or_insert_with(|| v.clone());
+        // a violation seen under both profiles is reported once, under "checked"
+        let e = by_key.entry(v.key()).or_insert_with(|| v.clone());
+        if v.profile != "release" {
+            e.profile = v.profile.clone();
+        }
     }
     let mut new_violations = 0;
     let mut printed_known: BTreeSet<String> = BTreeSet::new();
@@ -640,6 +670,7 @@ pub fn cmd_check(a: &[String]) -> i32 {
             seed,
             tier: tier.clone(),
             minimised: tried > 0,
+            profile: v.profile.clone(),
             scenario: m.scenario.clone(),
         };
         if let Err(e) = std::fs::write(&fname, serde_json::to_string_pretty(&rf).unwrap()) {
@@ -648,8 +679,8 @@ pub fn cmd_check(a: &[String]) -> i32 {
         }
         println!("VIOLATION property={} replay={}", m.property, fname);
         println!(
-            "  class={} site={} (found at run index {}, minimised over {} candidates)",
-            m.class, m.site, v.scenario.index, tried
+            "  class={} site={} profile={} (found at run index {}, minimised over {} candidates)",
+            m.class, m.site, if v.profile.is_empty() { "checked" } else { &v.profile }, v.scenario.index, tried
         );
         println!("  {}", m.detail);
         println!("  minimal trace: {}", shrink::describe(&m.scenario));
